@@ -84,6 +84,8 @@ struct Config {
   uint32_t c_hour = 0, c_dom = 0, c_mon = 0, c_dow = 0;
   std::string cron_text;
   bool cron_step = false, cron_list = false, cron_names = false, cron_dow_dropped = false;
+  bool cron_start_step = false, cron_ss_in_list = false, cron_ss_start_is_max = false, cron_step_gt_field = false;
+  bool cron_invalid = false;   // contains a step item the parser must reject (step 0, missing step): initialize() must return false
   int64_t tz_sec() const { return (int64_t)tz_min * 60; }
 };
 
@@ -123,6 +125,7 @@ void build_config(const Scenario &s, size_t end, int64_t anchor_local, Config &c
   uint64_t set[6] = {0, 0, 0, 0, 0, 0};
   std::string text[6];
   int items[6] = {0, 0, 0, 0, 0, 0};
+  bool bad[6] = {false, false, false, false, false, false}, ss[6] = {false, false, false, false, false, false};
   for (size_t k = 0; k < end && k < s.ops.size(); ++k) {
     const Op &op = s.ops[k];
     switch (op.code) {
@@ -135,10 +138,11 @@ void build_config(const Scenario &s, size_t end, int64_t anchor_local, Config &c
       case CF: {
         int f = (int)op.in(0, 0, 5);
         if (items[f] >= 4) break;
-        int kind = (int)op.in(1, 0, 4);
+        int kind = (int)op.in(1, 0, 6);
         int a = (int)op.in(2, lo[f], hi[f]), b = (int)op.in(3, lo[f], hi[f]);
         if (a > b && (kind == 2 || kind == 4)) std::swap(a, b);
-        int step = (int)op.in(4, 1, hi[f] - lo[f] + 1);
+        const int span = hi[f] - lo[f] + 1;
+        int step = (int)op.in(4, 1, 2 * span);   // steps larger than the field are valid (only the start value remains)
         int style = (int)op.in(5, 0, 3);
         std::string t; uint64_t bits = 0;
         auto add = [&](int v) { bits |= 1ULL << ((f == 5 && v == 7) ? 0 : v); };   // day-of-week 7 = Sunday = 0
@@ -147,9 +151,25 @@ void build_config(const Scenario &s, size_t end, int64_t anchor_local, Config &c
           case 1: t = cron_value_text(f, a, style); add(a); break;
           case 2: t = cron_value_text(f, a, style) + "-" + cron_value_text(f, b, style); for (int v = a; v <= b; ++v) add(v); break;
           case 3: t = "*/" + std::to_string(step); for (int v = lo[f]; v <= hi[f]; v += step) add(v); c.cron_step = true; break;
-          default: t = cron_value_text(f, a, style) + "-" + cron_value_text(f, b, style) + "/" + std::to_string(step);
-                   for (int v = a; v <= b; v += step) add(v); c.cron_step = true; break;
+          case 4: t = cron_value_text(f, a, style) + "-" + cron_value_text(f, b, style) + "/" + std::to_string(step);
+                  for (int v = a; v <= b; v += step) add(v); c.cron_step = true; break;
+          case 5: // "<start>/<step>": from start to the END OF THE FIELD in steps (ccronexpr set_number_hits(): a start without
+                  // '-' gets range[1] = max - 1; day-of-week runs to 7, and 7 is Sunday)
+                  t = cron_value_text(f, a, style) + "/" + std::to_string(step);
+                  for (int v = a; v <= hi[f]; v += step) add(v);
+                  c.cron_step = true; c.cron_start_step = true; ss[f] = true;
+                  if (a == hi[f]) c.cron_ss_start_is_max = true;
+                  break;
+          default: // step items every parser of this grammar must reject: zero step, missing step
+                  switch (step % 4) {
+                    case 0: t = cron_value_text(f, a, style) + "/0"; break;
+                    case 1: t = "*/0"; break;
+                    case 2: t = cron_value_text(f, a, style) + "/"; break;
+                    default: t = cron_value_text(f, a, style) + "-" + cron_value_text(f, std::max(a, b), style) + "/0"; break;
+                  }
+                  add(a); bad[f] = true; break;
         }
+        if ((kind == 3 || kind == 4 || kind == 5) && step > span) c.cron_step_gt_field = true;
         if (style && (f == 4 || (f == 5)) && kind != 0 && kind != 3) c.cron_names = true;
         if (items[f]++) { text[f] += ","; c.cron_list = true; }
         text[f] += t; set[f] |= bits;
@@ -160,7 +180,8 @@ void build_config(const Scenario &s, size_t end, int64_t anchor_local, Config &c
   const uint64_t full[6] = {kFull60, kFull60, kFullHour, kFullDom, kFullMon, kFullDow};
   for (int f = 0; f < 6; ++f) if (!items[f]) { text[f] = "*"; set[f] = full[f]; }
   // supported shape: at most one of day-of-month / day-of-week restricted (DESIGN.md C20)
-  if (set[3] != kFullDom && set[5] != kFullDow) { text[5] = "*"; set[5] = kFullDow; c.cron_dow_dropped = true; }
+  if (set[3] != kFullDom && set[5] != kFullDow) { text[5] = "*"; set[5] = kFullDow; c.cron_dow_dropped = true; bad[5] = false; ss[5] = false; }
+  for (int f = 0; f < 6; ++f) { if (bad[f]) c.cron_invalid = true; if (ss[f] && items[f] >= 2) c.cron_ss_in_list = true; }
   c.c_sec = set[0]; c.c_min = set[1]; c.c_hour = (uint32_t)set[2]; c.c_dom = (uint32_t)set[3]; c.c_mon = (uint32_t)set[4]; c.c_dow = (uint32_t)set[5];
   c.cron_text = text[0] + " " + text[1] + " " + text[2] + " " + text[3] + " " + text[4] + " " + text[5];
 }
@@ -286,6 +307,8 @@ struct Subject {
         ok = wd->initialize(c.sod, calp, c.workday_flag); break;
       default: ok = cr->initialize(c.cron_text); break;
     }
+    if (kind == K_CRON && c.cron_invalid)
+      return ok ? "initialize() accepted the invalid cron expression \"" + c.cron_text + "\" (zero or missing step)" : std::string();
     if (!ok) return "initialize() rejected a configuration of the documented shape" + (c.kind == K_CRON ? " (cron \"" + c.cron_text + "\")" : std::string());
     return "";
   }
@@ -313,6 +336,14 @@ std::string describe(const Config &c) {
     default: snprintf(b, sizeof b, "cron \"%s\" tz=%+dmin", c.cron_text.c_str(), c.tz_min); break;
   }
   return b;
+}
+
+void cron_classes(const Config &c, CaseInfo &info) {
+  if (c.kind != K_CRON) return;
+  info.cls_if(c.cron_step, "cron_step"); info.cls_if(c.cron_list, "cron_list"); info.cls_if(c.cron_names, "cron_names");
+  info.cls_if(c.cron_start_step, "cron_start_slash_step"); info.cls_if(c.cron_ss_in_list, "cron_start_slash_step_in_list");
+  info.cls_if(c.cron_ss_start_is_max, "cron_start_slash_step_start_is_field_max"); info.cls_if(c.cron_step_gt_field, "cron_step_larger_than_field");
+  info.cls_if(c.cron_invalid, "cron_invalid_step_rejected");
 }
 
 int64_t time_of(const Op &op) {   // local time of a TIME op: day, time of day, small delta
@@ -357,8 +388,9 @@ std::string run_next(const Scenario &s, CaseInfo &info) {
   if (!e.empty()) { sub.destroy(false); return e; }
   info.cls(kKindName[c.kind]);
   info.cls_if(c.tz_min != 0, "tz_nonzero");
-  if (c.kind == K_CRON) { info.cls_if(c.cron_step, "cron_step"); info.cls_if(c.cron_list, "cron_list"); info.cls_if(c.cron_names, "cron_names");
-                          info.cls_if(c.cron_dow_dropped, "cron_dow_dropped_both_restricted"); }
+  cron_classes(c, info);
+  if (c.kind == K_CRON) info.cls_if(c.cron_dow_dropped, "cron_dow_dropped_both_restricted");
+  if (c.kind == K_CRON && c.cron_invalid) { sub.destroy(false); return ""; }   // correctly rejected: nothing to ask this object
   const int64_t tz = c.tz_sec();
   int64_t prev_now = -1, prev_res = -1;
   int queries = 0;
@@ -379,7 +411,8 @@ std::string run_next(const Scenario &s, CaseInfo &info) {
       std::string ie = sub.init(c);
       sub.a->setTimezone(c.tz_min);           // cleanup() drops the explicit time zone
       if (!ie.empty()) { err = ie + " when re-initialising an existing alarm"; break; }
-      if (c.kind == K_CRON) { info.cls_if(c.cron_step, "cron_step"); info.cls_if(c.cron_list, "cron_list"); info.cls_if(c.cron_names, "cron_names"); }
+      cron_classes(c, info);
+      if (c.kind == K_CRON && c.cron_invalid) break;   // correctly rejected: the object has no valid configuration any more
       reconfigured = true;
       k = e2 - 1;
       continue;
@@ -663,6 +696,8 @@ struct Life {
     if (x.c.kind == K_WORKDAY) x.c.calp = &calm[x.cal];
     std::string e = x.sub.create_shared(loop.get(), cal[x.cal].get(), x.c);
     if (!e.empty()) return e;
+    cron_classes(x.c, info);
+    if (x.c.kind == K_CRON && x.c.cron_invalid) { x.sub.destroy_alarm(); x.used = true; return ""; }   // correctly rejected
     x.alive = true; x.used = true; ++created;
     Unit *px = &x;
     x.sub.a->setCallback([this, px] { on_fire(*px); });
@@ -730,6 +765,8 @@ struct Life {
         std::string ie = x.sub.reinit(x.c, cal[x.cal].get());
         if (via & 1) { x.sub.a->setTimezone(x.c.tz_min); Unit *px = &x; x.sub.a->setCallback([this, px] { on_fire(*px); }); }   // cleanup() dropped both
         if (!ie.empty()) { fail(x, ie + " when re-initialising an existing alarm"); break; }
+        cron_classes(x.c, info);
+        if (x.c.kind == K_CRON && x.c.cron_invalid) { x.sub.destroy_alarm(); x.alive = false; break; }   // correctly rejected: no valid configuration any more
         x.reconfigured = true;
         if (op.in(5, 0, 3) != 0) {
           bool ret = real_enable(x);
@@ -890,21 +927,23 @@ void g_config(Scenario &s, int64_t kind, bool far_bias) {
       static const int lo[6] = {0, 0, 0, 1, 1, 0}, hi[6] = {59, 59, 23, 31, 12, 7};
       auto item = [&](int f, int64_t kindsel) {
         int64_t a = *range(0, hi[f] - lo[f]), b = *range(0, hi[f] - lo[f]);
-        int64_t step = *pick({{4, range(1, 6)}, {1, range(0, hi[f] - lo[f])}}) - 1; if (step < 0) step = 0;
+        int64_t step = *pick({{8, range(1, 6)}, {3, range(0, hi[f] - lo[f])}, {1, range(hi[f] - lo[f] + 1, 2 * (hi[f] - lo[f]) + 1)}}) - 1; if (step < 0) step = 0;
+        if (kindsel == 5) { int64_t m = *range(0, 9); if (m == 0) a = hi[f] - lo[f]; else if (m <= 4) a = *range(0, (hi[f] - lo[f]) / 3); }   // start at the field maximum / small starts (several values)
         s.ops.push_back(op_of(CF, {f, kindsel, a, b, step, (f >= 4 ? *pick({{2, just(0)}, {1, range(1, 3)}}) : 0)}));
       };
       int64_t tmpl = far_bias ? *pick({{1, just(0)}, {5, just(1)}, {1, just(2)}}) : *pick({{6, just(0)}, {3, just(1)}, {1, just(2)}});
       if (tmpl == 0) {          // free form: every field 0..3 items
         for (int f = 0; f < 6; ++f) {
           int64_t n = *pick({{5, just(0)}, {4, just(1)}, {2, just(2)}, {1, just(3)}});
-          for (int64_t i = 0; i < n; ++i) item(f, *pick({{1, just(0)}, {4, just(1)}, {3, just(2)}, {2, just(3)}, {2, just(4)}}));
+          for (int64_t i = 0; i < n; ++i) item(f, *pick({{1, just(0)}, {4, just(1)}, {3, just(2)}, {2, just(3)}, {2, just(4)}, {3, just(5)}}));
         }
+        if (*range(0, 49) == 0) item((int)*range(0, 5), 6);   // a step item that must be rejected (zero / missing step)
       } else if (tmpl == 1) {   // sparse: one h:m:s per matching day, day restricted by day-of-month/month or day-of-week
-        for (int f = 0; f < 3; ++f) item(f, 1);
+        for (int f = 0; f < 3; ++f) { item(f, *pick({{5, just(1)}, {1, just(5)}})); if (*range(0, 11) == 0) item(f, *pick({{1, just(1)}, {1, just(5)}})); }
         int64_t shape = *range(0, 4);
-        if (shape <= 2) { item(3, *pick({{3, just(1)}, {1, just(2)}, {1, just(4)}})); if (shape >= 1) item(4, *pick({{3, just(1)}, {1, just(2)}, {1, just(4)}})); if (shape == 2 && *range(0, 1)) item(4, 1); }
-        else if (shape == 3) { item(5, *pick({{2, just(1)}, {1, just(2)}})); item(4, 1); }
-        else item(5, 1);
+        if (shape <= 2) { item(3, *pick({{3, just(1)}, {1, just(2)}, {1, just(4)}, {1, just(5)}})); if (shape >= 1) item(4, *pick({{3, just(1)}, {1, just(2)}, {1, just(4)}, {1, just(5)}})); if (shape == 2 && *range(0, 1)) item(4, 1); }
+        else if (shape == 3) { item(5, *pick({{2, just(1)}, {1, just(2)}, {1, just(5)}})); item(4, 1); }
+        else item(5, *pick({{3, just(1)}, {1, just(5)}}));
       } else {                  // leap day / impossible dates
         for (int f = 0; f < 3; ++f) item(f, 1);
         int64_t which = *range(0, 3);
